@@ -143,6 +143,16 @@ func ccFlame(g *ccGates) *flamego.Flame {
 		hd.Set("X-Url", c.URLPath("named", "v", c.Request().Header.Get("X-Val")))
 		panic(fmt.Sprintf("boom-%s-%d-", c.Param("v"), id))
 	})
+	// a route that answers by RETURNING its body: the value goes through the ReturnHandler service shared by all requests
+	f.Get("/ret/{v}", func(c flamego.Context, t *reqTag) string {
+		id := idOf(c.Request().Request)
+		g.gate(id)
+		out := ccOut{H: "ret", Val: c.Param("v"), Tag: t.id, URL: c.URLPath("named", "v", c.Request().Header.Get("X-Val")), Wid: id}
+		out.Scr, _ = strconv.Atoi(c.Param("_scratch"))
+		c.ResponseWriter().Header().Set("X-Wid", strconv.Itoa(id))
+		b, _ := json.Marshal(out)
+		return string(b)
+	})
 	// "cold" routes: a static segment that has no sibling registered after it (alone in its method tree / the only child of
 	// its parent), so that nothing at set-up time has looked at it yet - the first requests do, concurrently
 	f.Delete("/lone/{v}", h("lone"))
@@ -162,7 +172,7 @@ func m0(rq ccReq) string { return fmt.Sprintf("boom-%s-%d-", rq.Val, rq.ID) }
 
 func ccRequest(rq ccReq) *http.Request {
 	path := map[string]string{"static": "/s", "param": "/p/" + rq.Val, "opt": "/o/" + rq.Val, "regex": "/r/" + rq.Val,
-		"all": "/a/" + rq.Val, "hdr": "/h", "render": "/rd/" + rq.Val, "panic": "/pn/" + rq.Val, "lone": "/lone/" + rq.Val, "deep": "/deep/er/" + rq.Val}[rq.Route]
+		"all": "/a/" + rq.Val, "hdr": "/h", "render": "/rd/" + rq.Val, "panic": "/pn/" + rq.Val, "lone": "/lone/" + rq.Val, "deep": "/deep/er/" + rq.Val, "ret": "/ret/" + rq.Val}[rq.Route]
 	method := "GET"
 	if rq.Route == "lone" {
 		method = "DELETE"
@@ -285,7 +295,7 @@ func ccReplay(raw json.RawMessage, idx int, tr *traceWriter) {
 
 func ccGen(seed int64, n int, args []string, out *json.Encoder) {
 	rng := rand.New(rand.NewSource(seed))
-	kinds := []string{"static", "param", "opt", "regex", "all", "hdr", "render", "render", "panic", "panic", "lone", "lone", "lone", "deep", "deep"}
+	kinds := []string{"static", "param", "opt", "regex", "all", "hdr", "render", "render", "panic", "panic", "lone", "lone", "lone", "deep", "deep", "ret", "ret", "ret"}
 	for i := 0; i < n; i++ {
 		k := 8 + rng.Intn(57)
 		c := ccCase{Sched: []int{}}
